@@ -116,37 +116,75 @@ def check(ctx):
             else:
                 ctx.fail('C09.1', ctx.site(b, bi), 'outer signature message %s is not the digest of the wrapped object that receives the outer \'signed\' assertion' % fmt(msg), key='C09.1|outer|' + path)
     # ---- C09.3 matcher
-    matcher_fn = None
+    # The per-object matcher is looked for in two shapes: a closure handed to find_map over the 'signed' objects (as written), or
+    # the body of a loop over those objects in the host function (hand-written loop, or the lowered normal form).
+    def triple(st, inner_variant):
+        return (st[0] == 'agg' and st[2] == 'Some' and st[3] and st[3][0][0] == 'agg' and st[3][0][2] == 'Ok' and st[3][0][3][0][0] == 'agg'
+                and st[3][0][3][0][2] == inner_variant)
+    scope = None
     for b in F.bodies:
-        if b.dk == 'Closure':
+        if b.dk == 'Closure' or scope is not None:
             continue
         for cl in F.closures_of(b):
             tb = TermBuilder(F, cl)
             for bi, si, t in ret_defs(tb):
-                st = t
-                if st[0] == 'agg' and st[2] == 'Some' and st[3] and st[3][0][0] == 'agg' and st[3][0][2] == 'Ok' and st[3][0][3][0][0] == 'agg' and st[3][0][3][0][2] == 'Some':
+                if triple(t, 'Some'):
                     if any(prim_call(x) is not None for sb_, dt in switch_on(tb, cl, lambda d: True) for x in walk(dt)):
-                        matcher_fn = (b, cl)
-    if matcher_fn is None:
-        ctx.lost('C09.3', 'signature matcher closure')
+                        otb = TermBuilder(F, b)
+                        binds = rec.closure_bindings(F, b, otb)
+                        caps, elem, adaptor = binds.get(cl.path, ((), None, None))
+                        caps = [strip_sites(c) for c in caps]
+                        scope = {'host': b, 'otb': otb, 'body': cl, 'tb': tb, 'OBJ': P2, 'caps': caps, 'src': strip_sites(elem[1]) if elem else None,
+                                 'adaptor': adaptor, 'defs': ret_defs(tb)}
+    if scope is None:
+        for b in F.bodies:
+            if scope is not None:
+                break
+            tb = TermBuilder(F, b)
+            for h in loop_headers(b):
+                t = b.term(h)
+                dt = tb.operand_term(t['discr'], h, len(b.blocks[h]['stmts']))
+                if not (dt[0] == 'discr' and dt[1][0] == 'next'):
+                    continue
+                coll = strip_sites(dt[1][1])
+                oa = m_call(coll, name='objects_for_predicate', self_suffix='Envelope')
+                if oa is None:
+                    continue
+                some = [bb for v, bb in t['targets'] if v == 1]
+                if len(some) != 1:
+                    continue
+                inside = b.reachable(some[0], removed_blocks=[h])
+                defs = []
+                for bi in sorted(inside):
+                    for si, st in enumerate(b.blocks[bi]['stmts']):
+                        if st['k'] == 'assign' and st['rv']['k'] == 'agg' and st['rv'].get('variant') == 'Some' and not st['place']['p']:
+                            tt = tb.rvalue_term(st['rv'], bi, si)
+                            if triple(tt, 'Some') or triple(tt, 'None'):
+                                defs.append((bi, si, tt))
+                if any(triple(d[2], 'Some') for d in defs) and any(prim_call(x) is not None for sb_, dt2 in switch_on(tb, b, lambda d: True) for x in walk(dt2)):
+                    scope = {'host': b, 'otb': tb, 'body': b, 'tb': tb, 'OBJ': ('elem', coll), 'caps': None, 'src': coll, 'adaptor': 'loop', 'defs': defs,
+                             'header': h, 'some': some[0]}
+                    break
+    if scope is None:
+        ctx.lost('C09.3', 'signature matcher (closure given to find_map over the \'signed\' objects, or loop over them)')
     else:
-        outer_fn, cl = matcher_fn
-        otb = TermBuilder(F, outer_fn)
-        binds = rec.closure_bindings(F, outer_fn, otb)
-        caps, elem, adaptor = binds.get(cl.path, ((), None, None))
-        caps = [strip_sites(c) for c in caps]
+        outer_fn, cl, otb, caps, adaptor = scope['host'], scope['body'], scope['otb'], scope['caps'], scope['adaptor']
+        in_closure = caps is not None
         def up(t):
+            if not in_closure:
+                return strip_sites(t)
             m = {('upvar', i): c for i, c in enumerate(caps)}
             return strip_sites(subst(t, m))
         # reader side predicate
-        src = strip_sites(elem[1]) if elem else None
+        src = scope['src']
         oa = m_call(src, name='objects_for_predicate', self_suffix='Envelope') if src else None
         if oa is not None and oa[0] == P1 and const_name(oa[1]) == 'SIGNED':
             ctx.ok('C09.6', ctx.site(outer_fn), 'reader: iterates objects_for_predicate(self, \'signed\')')
         else:
             ctx.fail('C09.6', ctx.site(outer_fn), 'matcher does not iterate the objects of the \'signed\' assertions of self: %s' % (fmt(src) if src else '?'), key='C09.6|reader')
-        ctb = TermBuilder(F, cl)
-        OBJ = P2
+        ctb = scope['tb']
+        OBJ = scope['OBJ']
+        KEYP = P2        # the key is the second parameter of the enclosing function (captured by the closure form)
         def is_self(t):
             t = up(t)
             if t == P1:
@@ -183,7 +221,7 @@ def check(ctx):
                 t = t[1]
             a = m_call(t, name='object_for_predicate', self_suffix='Envelope')
             return a is not None and a[0] == OBJ and const_name(a[1]) == 'SIGNED'
-        key_ok = lambda k: up(k) == P2
+        key_ok = lambda k: up(k) == KEYP
         def g_plain(x):
             pc = prim_call(x)
             return pc is not None and is_self(pc[0]) and sig_of(pc[1]) == OBJ and key_ok(pc[2])
@@ -196,10 +234,12 @@ def check(ctx):
             s = sig_of(pc[1]) if pc else None
             return pc is not None and is_obj(pc[0]) and s is not None and outer_sig_obj(s) and key_ok(pc[2])
         n_acc = 0
-        for bi, si, t in ret_defs(ctb):
+        accept_aggs = []
+        for bi, si, t in scope['defs']:
             st = strip_sites(t)
-            if not (st[0] == 'agg' and st[2] == 'Some' and st[3][0][0] == 'agg' and st[3][0][2] == 'Ok' and st[3][0][3][0][0] == 'agg' and st[3][0][3][0][2] == 'Some'):
+            if not triple(st, 'Some'):
                 continue
+            accept_aggs.append(st)
             n_acc += 1
             val = st[3][0][3][0][3][0]
             site = ctx.site(cl, bi, si)
@@ -224,14 +264,24 @@ def check(ctx):
         if n_acc == 0:
             ctx.lost('C09.3', 'accept sites of the matcher')
         # an object that is not a signature from this key must not end the scan: the per-object negative is None (continue), never Some(Ok(None))
-        term_neg = [(bi, si) for bi, si, t in ret_defs(ctb)
-                    if strip_sites(t)[0] == 'agg' and strip_sites(t)[2] == 'Some' and strip_sites(t)[3][0][0] == 'agg' and strip_sites(t)[3][0][2] == 'Ok'
-                    and strip_sites(t)[3][0][3][0][0] == 'agg' and strip_sites(t)[3][0][3][0][2] == 'None']
+        term_neg = [(bi, si) for bi, si, t in scope['defs'] if triple(strip_sites(t), 'None')]
         if term_neg:
             ctx.fail('C09.3', ctx.site(cl, term_neg[0][0], term_neg[0][1]), 'a signature object that does not verify under the key ends the scan with "not signed" (Some(Ok(None))): '
                      'a valid signature from the same key that sorts later is never reached', key='C09.3|terminating_negative')
         elif adaptor == 'find_map':
             ctx.ok('C09.3', ctx.site(cl), 'per-object negatives are None: the scan continues to the remaining \'signed\' objects')
+        elif adaptor == 'loop':
+            # a negative verdict for one object must lead back to the loop header (next object), not out of the loop
+            hdr, some_ = scope['header'], scope['some']
+            negs = []
+            for g in (g_plain,):
+                edges, blocks, guards = passing_edges(cl, ctb, g, False)
+                negs.extend(edges)
+            bad = [e for e in negs if hdr not in cl.reachable(e[1])]
+            if negs and not bad:
+                ctx.ok('C09.3', ctx.site(cl, hdr), 'a signature object that does not verify leads back to the loop header: the scan continues to the remaining \'signed\' objects')
+            else:
+                ctx.fail('C09.3', ctx.site(cl, hdr), 'a signature object that does not verify under the key can end the scan', key='C09.3|terminating_negative')
         # the enclosing function returns only what the matcher produced
         for bi, si, t in accept_sites(outer_fn, otb):
             st = strip_sites(t)
@@ -239,7 +289,8 @@ def check(ctx):
                 inner = st[3][0]
                 if inner[0] == 'agg' and inner[2] == 'None':
                     continue
-                if inner[0] == 'agg' and inner[2] == 'Some' and contains(inner, lambda x: x[0] == 'call' and call_name(x) == 'find_map'):
+                if inner[0] == 'agg' and inner[2] == 'Some' and (contains(inner, lambda x: x[0] == 'call' and call_name(x) == 'find_map')
+                                                                  or contains(inner, lambda x: x in accept_aggs)):
                     ctx.ok('C09.2', ctx.site(outer_fn, bi, si), 'positive result is exactly the matcher\'s Some(Ok(Some(x)))')
                     continue
             ctx.fail('C09.2', ctx.site(outer_fn, bi, si), 'a positive verification result is manufactured without the matcher: %s' % fmt(st), key='C09.2|manufactured')
